@@ -874,6 +874,9 @@ def run(ctx):
     # ---------------------------------------------------------------- 2. setters called directly with invalid values
     direct_setters(ctx)
 
+    # ---------------------------------------------------------------- 2b. engine options through LibRDEngine.setup
+    engine_options(ctx)
+
     # ---------------------------------------------------------------- 3. positional sweep
     positional_sweep(ctx)
 
@@ -961,6 +964,54 @@ def direct_setters(ctx):
                 ctx.disagree("validate:" + cls, case, [st, detail], r)
             elif cls == "boundary" and dict((a, b) for a, b in r["state"]) != detail["after"]:
                 ctx.disagree("validate:boundary-state", case, detail, r)
+
+
+ENGINE_OPTIONS = ["euler", "tauleap", "gillespie"]          # documentation/engines.rst
+
+
+def engine_setup(option, graph):
+    """LibRDEngine(lib, option).setup(script) on the engine rebuilt from the tree under test"""
+    import ctypes
+    import common
+    from strengths.librdengine import LibRDEngine
+    from strengths.rdscript import RDScript
+    rds, _, _, _ = make_system("graph" if graph else "grid", 2 if graph else (2, 1, 1), ["A"])
+    script = RDScript(rds, [0.0, 1.0], time_step=0.5, rng_seed=1)
+    eng = LibRDEngine(ctypes.CDLL(common.build_engine("plain")), option=option, requires_molecules=(option != "euler"))
+    try:
+        eng.setup(script)
+    except Exception as ex:  # noqa
+        return "error", type(ex).__name__
+    try:
+        eng.finalize()
+    except Exception:  # noqa
+        pass
+    return "ok", None
+
+
+def engine_options(ctx):
+    """unknown engine options (incl. ones that merely begin with a valid keyword) must make setup() raise"""
+    pool = list(ENGINE_OPTIONS)
+    for v in ENGINE_OPTIONS:
+        pool += [v + "2", v + " ", v + "_x", v.capitalize(), v[:-1], " " + v, v + v]
+    pool += ["", "rk4", "Gillespie", "tau-leap", "eulertauleap"]
+    ops, meta = [], []
+    for graph in (False, True):
+        for opt in pool:
+            ops.append({"op": "validate", "kind": "engine_option", "graph": graph, "v": opt})
+            meta.append((graph, opt))
+    res = ctx.model.run(ops)
+    for (graph, opt), op, r in zip(meta, ops, res):
+        st, exc = engine_setup(opt, graph)
+        invalid = opt not in ENGINE_OPTIONS
+        case = {"kind": "engine-option", "option": opt, "graph": graph, "invalid": invalid}
+        ctx.case(("engine-option", opt, graph), nontrivial=True)
+        ctx.count("engine_option_" + ("invalid" if invalid else "valid"))
+        if invalid and st == "ok":
+            report(ctx, "engine-option@setup", "LibRDEngine(option=%r).setup() on a %s space was accepted" % (opt, "graph" if graph else "grid"),
+                   case, impl="accepted", expected="exception")
+        if r is not None and ("error" in r) != (st == "error"):
+            ctx.disagree("validate:engine_option", case, [st, exc], r)
 
 
 def thunk_of(op):
@@ -1120,6 +1171,9 @@ def replay(ctx, rec):
         got = run_index_map(tuple(case["shape"]), case["im"], case["env"])
         inv = spec_index_map_invalid(case["im"], case["env"])
         return not (inv and got == "ok"), {"case": case, "impl": got, "invalid_because": inv}
+    if kind == "engine-option":
+        st, exc = engine_setup(case["option"], case["graph"])
+        return not (case["invalid"] and st == "ok"), {"case": case, "impl": [st, exc], "expected": "exception" if case["invalid"] else "accepted"}
     if kind == "direct":
         st, detail = thunk_of(case["op"])
         fails = direct_verdict(case["class"], case["invalid"], st, detail)
